@@ -19,8 +19,12 @@ def exc(name):
     return getattr(extract.module("pyrtcm.exceptions"), name)
 
 
-def new_message(st, payload, labelmsm=1, immutable=False, dynamic=True):
-    """A heap object of class RTCMMessage with the fixed private fields."""
+def new_message(st, payload, labelmsm=None, immutable=False, dynamic=True):
+    """A heap object of class RTCMMessage with the fixed private fields.  The label option is symbolic unless the caller fixes it:
+    a function that must not depend on it (repr, serialize, identity, ...) is then verified for every value of it."""
+    if labelmsm is None:
+        from pyvc.values import fresh_name as _fn
+        labelmsm = SInt(z3.Int(_fn("labelmsm")))
     o = HObject(M)
     o.pycls = extract.module("pyrtcm.rtcmmessage").RTCMMessage
     o.dynamic = dynamic
